@@ -522,10 +522,10 @@ theorem elemStep_verdict (s : Setup) (f : Nat) (cur e : Datum) (env : Bindings)
     · simp only [hl, if_true] at h hsp
       by_cases he : e = .sym x
       · simp only [cellEq_sym_left, he, decide_true, Bool.not_true, Bool.false_eq_true, if_false] at h
-        left; exact ⟨env, by simp only [sm, hsp, he, if_true]; rfl, h⟩
+        left; exact ⟨env, by rw [sm, hsp]; simp [he], h⟩
       · simp only [cellEq_sym_left, he, decide_false, Bool.not_false, if_true] at h
         cases h
-        right; exact ⟨rfl, Or.inl (by simp [sm, hsp, he])⟩
+        right; exact ⟨rfl, Or.inl (by rw [sm, hsp]; simp [he])⟩
     · simp only [hl, Bool.false_eq_true, if_false] at h hsp
       have hsm : sm s.ctx (.sym x) e = true := by
         simp only [sm, hsp]; split <;> rfl
@@ -566,5 +566,285 @@ theorem elemStep_verdict (s : Setup) (f : Nat) (cur e : Datum) (env : Bindings)
     · rename_i hce
       simp only [Bool.not_eq_true', Bool.not_eq_false] at hce
       left; exact ⟨env, by simp [sm, hsp, hce], h⟩
+
+end Marwood.Transform
+
+namespace Marwood.Transform
+open Marwood Marwood.Spec.Match
+
+theorem okS_false_head (s : Setup) {R : Datum} (h : okS s.es false R = true) :
+    headNotEll s.ctx R = true := by
+  cases R with
+  | pair q R' =>
+    by_cases hq : q = .sym s.es
+    · simp [okS, hq] at h
+    · simp [headNotEll, s.isEllD_eq, Setup.ell, hq]
+  | _ => rfl
+
+theorem endsInNil_dropSpine : ∀ (k : Nat) (E : Datum), endsInNil (dropSpine k E) = true → endsInNil E = true := by
+  intro k
+  induction k with
+  | zero => intro E h; cases E <;> simpa [dropSpine] using h
+  | succ k ih =>
+    intro E h
+    cases E with
+    | pair x y => simp only [dropSpine] at h; simp only [endsInNil]; exact ih y h
+    | _ => simpa [dropSpine] using h
+
+/-- a list pattern without ellipsis matches only proper lists -/
+theorem sm_okS_false_proper (s : Setup) : ∀ (R E : Datum),
+    okS s.es false R = true → sm s.ctx R E = true → endsInNil E = true := by
+  intro R
+  induction R with
+  | nil => intro E _ h; rw [sm_nil] at h; simp at h; subst h; rfl
+  | pair q R' _ ihd =>
+    intro E hok h
+    have hq : ¬ q = .sym s.es := by intro hq; simp [okS, hq] at hok
+    simp only [okS, hq, if_false, Bool.and_eq_true] at hok
+    rw [sm_cons _ _ _ _ (okS_false_head s hok.2)] at h
+    cases E with
+    | pair e1 er =>
+      simp only [Bool.and_eq_true] at h
+      simp only [endsInNil]
+      exact ihd er hok.2 h.2
+    | _ => simp at h
+  | _ => intro E h; simp [okS] at h
+
+/-- a well-formed list pattern matches only proper lists -/
+theorem sm_okS_proper (s : Setup) : ∀ (P : Datum) (allow : Bool) (E : Datum),
+    okS s.es allow P = true → headNotEll s.ctx P = true → sm s.ctx P E = true → endsInNil E = true := by
+  intro P
+  induction P with
+  | nil => intro allow E _ _ h; rw [sm_nil] at h; simp at h; subst h; rfl
+  | pair a d _ ihd =>
+    intro allow E hok hh h
+    have ha : ¬ a = .sym s.es := by
+      intro ha
+      simp [headNotEll, s.isEllD_eq, Setup.ell, ha] at hh
+    simp only [okS, ha, if_false, Bool.and_eq_true] at hok
+    by_cases hd : headNotEll s.ctx d = true
+    · rw [sm_cons _ _ _ _ hd] at h
+      cases E with
+      | pair e1 er =>
+        simp only [Bool.and_eq_true] at h
+        simp only [endsInNil]
+        exact ihd allow er hok.2 hd h.2
+      | _ => simp at h
+    · -- d = (ell . R)
+      cases d with
+      | pair q R =>
+        have hq : s.ctx.isEllD q = true := by simpa [headNotEll] using hd
+        have hqe : q = .sym s.es := by simpa [s.isEllD_eq, Setup.ell] using hq
+        rw [sm_ell _ _ _ _ _ hq] at h
+        simp only [Bool.and_eq_true] at h
+        have hR : okS s.es false R = true := by
+          have := hok.2
+          simp only [okS, hqe, if_true, Bool.and_eq_true] at this
+          exact this.2
+        exact endsInNil_dropSpine _ _ (sm_okS_false_proper s R _ hR h.2)
+      | _ => simp [headNotEll] at hd
+  | _ => intro allow E h; simp [okS] at h
+
+end Marwood.Transform
+
+namespace Marwood.Transform
+open Marwood Marwood.Spec.Match
+
+theorem peekIs_ell_cons (s : Setup) (rest : List Datum) : peekIs s.ell (s.ell :: rest) = true := by
+  simp [peekIs, Setup.ell]
+
+theorem match_verdict_aux (s : Setup) : ∀ f : Nat,
+    (∀ P E env r, okS s.es true P = true → headNotEll s.ctx P = true →
+        patternMatch s.ell s.lits f P E env = .ok r → Verdict s.ctx P E r.1) ∧
+    (∀ xs ps cur env r allow, okS s.es allow (Datum.ofList ps) = true →
+        headNotEll s.ctx (Datum.ofList ps) = true →
+        matchLoop s.ell s.lits f xs ps cur false env = .ok r →
+        Verdict s.ctx (Datum.ofList ps) (Datum.ofList xs) r.1) ∧
+    (∀ xs p rest env r, okP s.es p = true → okS s.es false (Datum.ofList rest) = true →
+        matchLoop s.ell s.lits f xs (s.ell :: rest) p true env = .ok r →
+        InEllV s.ctx p rest xs r.1) := by
+  intro f
+  induction f with
+  | zero =>
+    refine ⟨?_, ?_, ?_⟩
+    · intro P E env r _ _ h; simp [patternMatch] at h
+    · intro xs ps cur env r allow _ _ h; simp [matchLoop] at h
+    · intro xs p rest env r _ _ h; simp [matchLoop] at h
+  | succ f ih =>
+    obtain ⟨ihA, ihB, ihC⟩ := ih
+    refine ⟨?_, ?_, ?_⟩
+    · -- (A) pattern_match
+      intro P E env r hP hPh h
+      have hPnil := okS_endsInNil hP
+      have hPeq := endsInNil_ofList hPnil
+      by_cases hE : endsInNil E = true
+      · have hEeq := endsInNil_ofList hE
+        have hEp := endsInNil_pairOrNil hE
+        unfold patternMatch at h
+        simp only [hEp, Bool.not_true, Bool.and_false, Bool.false_eq_true, if_false,
+          isList_of_endsInNil hE, isList_of_endsInNil hPnil] at h
+        have hloop : matchLoop s.ell s.lits f (iterList E) (iterList P) .nil false env = .ok r := by
+          cases hb : E.isPair <;> cases hb' : P.isPair <;> simp only [hb, hb'] at h <;> simpa using h
+        have := ihB (iterList E) (iterList P) .nil env r true (by rw [← hPeq]; exact hP)
+          (by rw [← hPeq]; exact hPh) hloop
+        rw [← hPeq, ← hEeq] at this
+        exact this
+      · have hE' : endsInNil E = false := by simpa using hE
+        have hsm : sm s.ctx P E = false := by
+          cases hs : sm s.ctx P E with
+          | false => rfl
+          | true => have := sm_okS_proper s P true E hP hPh hs; simp [this] at hE
+        have hr : r.1 = false := by
+          cases f with
+          | zero =>
+            unfold patternMatch at h
+            split at h
+            · cases h; rfl
+            · split at h
+              · cases h; rfl
+              · simp [matchLoop] at h
+          | succ f =>
+            rw [patternMatch_improper _ _ _ _ hPnil hE'] at h
+            cases h; rfl
+        exact ⟨by simp [hr], fun _ => Or.inl hsm⟩
+    · -- (B) the loop outside an ellipsis
+      intro xs ps cur env r allow hok hhd h
+      cases xs with
+      | nil =>
+        rw [matchLoop_nil] at h
+        simp only [Bool.false_eq_true, if_false] at h
+        cases ps with
+        | nil => cases h; exact ⟨fun _ => by simp [Datum.ofList, sm_nil], by simp⟩
+        | cons p ps' =>
+          simp only at h
+          by_cases hpk : peekIs s.ell ps' = true
+          · obtain ⟨rest, hrest⟩ := (peekIs_ell_iff s ps').mp hpk
+            subst hrest
+            simp only [hpk, if_true, List.tail_cons] at h
+            cases h
+            simp only
+            constructor
+            · intro hb
+              rw [sm_whole]
+              have : rest = [] := by simpa using hb
+              subst this
+              simp [Datum.ofList, sm_nil]
+            · intro hb
+              left
+              rw [sm_whole]
+              have : rest ≠ [] := by simpa using hb
+              have : ¬ (rest.length ≤ 0) := by
+                cases rest <;> simp_all
+              simp [this]
+          · simp only [hpk, Bool.false_eq_true, if_false] at h
+            cases h
+            refine ⟨by simp, fun _ => Or.inl ?_⟩
+            simp only [Datum.ofList]
+            rw [sm_cons _ _ _ _ (by rw [headNotEll_ofList]; simpa using hpk)]
+      | cons e xs' =>
+        rw [matchLoop_cons] at h
+        cases ps with
+        | nil =>
+          simp only [selNext, Bool.false_eq_true, if_false] at h
+          cases h
+          exact ⟨by simp, fun _ => Or.inl (by simp [Datum.ofList, sm_nil])⟩
+        | cons p ps' =>
+          simp only [selNext, Bool.false_eq_true, if_false] at h
+          have hpne : p ≠ .sym s.es := by
+            intro hp
+            rw [headNotEll_ofList] at hhd
+            simp [peekIs, Setup.ell, hp] at hhd
+          rw [okS_cons_ne hpne, Bool.and_eq_true] at hok
+          obtain ⟨hokp, hokps⟩ := hok
+          rcases elemStep_verdict s f p e env _ r ihA hokp h with ⟨env', hsm, hk⟩ | ⟨hr, hbad⟩
+          · -- the element matched; the loop goes on
+            by_cases hpk : peekIs s.ell ps' = true
+            · obtain ⟨rest, hrest⟩ := (peekIs_ell_iff s ps').mp hpk
+              subst hrest
+              rw [hpk] at hk
+              have hokr : okS s.es false (Datum.ofList rest) = true := by
+                have := hokps
+                simp only [Setup.ell, okS_cons_ell, Bool.and_eq_true] at this
+                exact this.2
+              exact enter_verdict s p e rest xs' r.1 hsm (ihC xs' p rest env' r hokp hokr hk)
+            · have hpk' : peekIs s.ell ps' = false := by simpa using hpk
+              rw [hpk'] at hk
+              have hh' : headNotEll s.ctx (Datum.ofList ps') = true := by
+                rw [headNotEll_ofList, hpk']; rfl
+              have hv := ihB xs' ps' p env' r allow hokps hh' hk
+              simp only [Verdict, Datum.ofList]
+              rw [sm_cons _ _ _ _ hh', gp_cons _ _ _ _ hh']
+              simp only [hsm, Bool.true_and]
+              constructor
+              · exact hv.1
+              · intro hb
+                rcases hv.2 hb with h2 | h2
+                · left; exact h2
+                · right; simp [h2]
+          · -- the element did not match
+            rw [hr]
+            by_cases hpk : peekIs s.ell ps' = true
+            · obtain ⟨rest, hrest⟩ := (peekIs_ell_iff s ps').mp hpk
+              subst hrest
+              exact enter_verdict_fail s p e rest xs' hbad
+            · have hh' : headNotEll s.ctx (Datum.ofList ps') = true := by
+                rw [headNotEll_ofList]; simpa using hpk
+              refine ⟨by simp, fun _ => ?_⟩
+              simp only [Datum.ofList]
+              rw [sm_cons _ _ _ _ hh', gp_cons _ _ _ _ hh']
+              rcases hbad with hbad | hbad
+              · left; simp [hbad]
+              · right; simp [hbad]
+    · -- (C) the loop inside an ellipsis
+      intro xs p rest env r hokp hokr h
+      cases xs with
+      | nil =>
+        rw [matchLoop_nil] at h
+        simp only [if_true, List.tail_cons] at h
+        cases rest with
+        | nil =>
+          cases h
+          exact ⟨fun _ => ⟨by simp, by simp, by simp [Datum.ofList, sm_nil]⟩, by simp⟩
+        | cons q rest' =>
+          have hq : q ≠ .sym s.es := by
+            intro hq; subst hq; simp [okS_cons_ell] at hokr
+          rw [okS_cons_ne hq, Bool.and_eq_true] at hokr
+          simp only [okS_false_peek s rest' hokr.2, Bool.false_eq_true, if_false] at h
+          cases h
+          exact ⟨by simp, fun _ => Or.inl (by simp)⟩
+      | cons e xs' =>
+        rw [matchLoop_cons] at h
+        by_cases hh : rest.length = xs'.length + 1
+        · -- hand-off to the fixed tail
+          cases rest with
+          | nil => simp at hh
+          | cons q rest' =>
+            have hsel : selNext p true (s.ell :: q :: rest') xs' = .inr (q, rest') := by
+              simp only [selNext, if_true, List.length_cons, List.tail_cons]
+              simp only [List.length_cons] at hh
+              simp [hh]
+            rw [hsel] at h
+            simp only at h
+            have hq : q ≠ .sym s.es := by
+              intro hq; subst hq; simp [okS_cons_ell] at hokr
+            rw [okS_cons_ne hq, Bool.and_eq_true] at hokr
+            have hpk := okS_false_peek s rest' hokr.2
+            have hh' : headNotEll s.ctx (Datum.ofList rest') = true := by
+              rw [headNotEll_ofList, hpk]; rfl
+            have hlen : rest'.length = xs'.length := by simpa using hh
+            rcases elemStep_verdict s f q e env _ r ihA hokr.1 h with ⟨env', hsm, hk⟩ | ⟨hr, hbad⟩
+            · rw [hpk] at hk
+              exact handoff_InEllV s p q e rest' xs' r.1 hlen hh' hsm
+                (ihB xs' rest' q env' r false hokr.2 hh' hk)
+            · rw [hr]; exact handoff_InEllV_fail s p q e rest' xs' hlen hh' hbad
+        · -- the same pattern again
+          have hsel : selNext p true (s.ell :: rest) xs' = .inr (p, s.ell :: rest) := by
+            simp only [selNext, if_true, List.length_cons]
+            simp [hh]
+          rw [hsel] at h
+          simp only [peekIs_ell_cons] at h
+          rcases elemStep_verdict s f p e env _ r ihA hokp h with ⟨env', hsm, hk⟩ | ⟨hr, hbad⟩
+          · exact reuse_InEllV s p e rest xs' r.1 hh hsm (ihC xs' p rest env' r hokp hokr hk)
+          · rw [hr]; exact reuse_InEllV_fail s p e rest xs' hh hbad
 
 end Marwood.Transform
